@@ -17,7 +17,7 @@ func init() { Register(c10{}) }
 func (c10) ID() string    { return "C10" }
 func (c10) Level() string { return "fault_enumeration" }
 func (c10) Rule() string {
-	return "workload = valid file from a seeded fault-free writer run (>= 2 row groups in half of the files) x source kind {ReadSeeker; +ByteReader; +ByteReader+ReaderAt+WriterTo}. Cases per file: for EVERY source call k (Read, ReadByte and Seek share one counter) of the fault-free read: err0 transient (always); partial (n>0 bytes + error), full (all requested bytes + error), early_eof ((0, io.EOF) before the end), and the sticky variants (fail from call k on) at every k whose read requests 256 bytes or more and a seeded 1-in-8 sample of the other k in quick, at every k in thorough; a Seek call fails with an error whatever the kind. Thorough adds an arm where the faulted read is also randomly fragmented, and 1% files of the large class (pages of 100..1200 records) with a seeded sample of about 400 call positions. Non-trivial = the fault actually fired (the source returned it); distinct = distinct (file digest, source kind, k, kind)."
+	return "workload = valid file from a seeded fault-free writer run (>= 2 row groups in half of the files) x source kind {ReadSeeker; +ByteReader; +ByteReader+ReaderAt+WriterTo}. Cases per file: for EVERY source call k (Read, ReadByte and Seek share one counter) of the fault-free read: err0 transient (always); partial (n>0 bytes + error), full (all requested bytes + error), early_eof ((0, io.EOF) before the end), and the sticky variants (fail from call k on) at every k whose read requests 256 bytes or more and a seeded 1-in-8 sample of the other k in quick, at every k in thorough; a Seek call fails with an error whatever the kind. One file in 200 has a footer beyond 64 KiB (200-260 row groups of a 16-column shape; about 400 sampled positions), 1% are giant-page files (one page body of 1.1-2.2 MiB), and one file in four of shapes flat, kv, nested is read by the code generated for a struct with the same columns in another field order (its reader may seek between chunks). Thorough adds an arm where the faulted read is also randomly fragmented, and 1% files of the large class (pages of 100..1200 records) with a seeded sample of about 400 call positions. Non-trivial = the fault actually fired (the source returned it); distinct = distinct (file digest, source kind, k, kind)."
 }
 func (c10) Assumptions() []string {
 	return []string{
@@ -28,7 +28,7 @@ func (c10) Assumptions() []string {
 	}
 }
 func (c10) Probes() []string {
-	return []string{"fired/New/read", "fired/New/seek", "fired/Next/read", "fired/kind/partial", "fired/kind/early_eof", "fired/kind/err0-sticky", "fired/rsb/readbyte", "outcome/ctor-error", "outcome/error-after-rows", "codec/gzip", "codec/snappy", "codec/uncompressed"}
+	return []string{"class/huge-footer", "class/giant-page", "reader/permuted-struct", "fired/New/read", "fired/New/seek", "fired/Next/read", "fired/kind/partial", "fired/kind/early_eof", "fired/kind/err0-sticky", "fired/rsb/readbyte", "outcome/ctor-error", "outcome/error-after-rows", "codec/gzip", "codec/snappy", "codec/uncompressed"}
 }
 func (c10) Runs(tier string) int {
 	if tier == "thorough" {
